@@ -49,6 +49,7 @@ func genRace(t *rapid.T) RaceCase {
 		c.Cfg.Primary = store.MultihashPrimary
 	}
 	c.Cfg.Immutable = false
+	c.Cfg.Sync = weighted(t, "syncOnFlush16", []int{2, 1}) == 1
 	c.Keys = genKeys(t, c.Cfg, 3, 10)
 	kinds := []string{opPut, opGet, opHas, opSize, opRemove, opFlush, opIter, opStorage, opCacheSize, opPGC}
 	nw := rapid.IntRange(3, 8).Draw(t, "workers")
@@ -106,7 +107,7 @@ func runRace(c RaceCase) {
 	}
 	s, err := store.OpenStore(bg, c.Cfg.Primary, filepath.Join(dir, dataBase), filepath.Join(dir, idxBase), false,
 		store.IndexBitSize(c.Cfg.Bits), store.IndexFileSize(c.Cfg.IdxSize), store.PrimaryFileSize(c.Cfg.PrimSize), store.FileCacheSize(c.Cfg.FileCache),
-		store.GCInterval(gcI), store.GCTimeLimit(0), store.SyncInterval(time.Duration(c.SyncUS)*time.Microsecond), store.BurstRate(burst))
+		store.GCInterval(gcI), store.GCTimeLimit(0), store.SyncInterval(time.Duration(c.SyncUS)*time.Microsecond), store.BurstRate(burst), store.SyncOnFlush(c.Cfg.Sync))
 	if err != nil {
 		panic(infraError{err})
 	}
